@@ -226,109 +226,111 @@ func TestVerifC03SuspendAtLoad(t *testing.T) {
 	defer r.RecoverPanic()
 	shard, shards := vfev.Shard()
 	nb := 0
-	for _, which := range []string{"grp", "p2p"} {
-		for _, dir := range []string{"suspend", "activate"} {
-			events := 0 // store-call boundaries and atomic operations of the load, learnt from the run without injection (k = 0)
-			for k := 0; k <= events+1; k++ {
-				nb++
-				if k > 0 && nb%shards != shard {
-					continue
-				}
-				var injected, suspended, attached bool
-				var subCode, accCode, pubCode, stored int
-				where := "after the load"
-				res := vsched.Run(vsched.Config{MaxSteps: 4000000}, func() {
-					x := vfSuspSetup()
-					p2pName := x.users[0].uid.P2PName(x.users[1].uid)
-					if dir == "activate" {
-						if c, _ := x.cl[3].Req(`{"acc":{"id":"$ID","user":"%s","status":"susp"}}`, x.users[0].id()); c >= 300 {
-							vsched.Fail("harness", fmt.Sprintf("initial suspension: %d", c))
-						}
+	for _, sel := range []bool{false, true} { // which ready select case every run loop prefers: first / last
+		for _, which := range []string{"grp", "p2p"} {
+			for _, dir := range []string{"suspend", "activate"} {
+				events := 0 // store-call boundaries and atomic operations of the load, learnt from the run without injection (k = 0)
+				for k := 0; k <= events+1; k++ {
+					nb++
+					if k > 0 && nb%shards != shard {
+						continue
 					}
-					// unload both topics
-					for i, c := range x.cl[:3] {
-						for _, tn := range []string{x.grp, x.users[0].id(), x.users[1].id()} {
-							if i == 0 && tn == x.users[0].id() || i == 1 && tn == x.users[1].id() || i == 2 && tn != x.grp {
-								continue
+					var injected, suspended, attached bool
+					var subCode, accCode, pubCode, stored int
+					where := "after the load"
+					res := vsched.Run(vsched.Config{MaxSteps: 4000000, SelectLast: sel}, func() {
+						x := vfSuspSetup()
+						p2pName := x.users[0].uid.P2PName(x.users[1].uid)
+						if dir == "activate" {
+							if c, _ := x.cl[3].Req(`{"acc":{"id":"$ID","user":"%s","status":"susp"}}`, x.users[0].id()); c >= 300 {
+								vsched.Fail("harness", fmt.Sprintf("initial suspension: %d", c))
 							}
-							c.Req(`{"leave":{"id":"$ID","topic":"%s"}}`, tn)
 						}
-					}
-					vsched.Advance(20 * time.Second)
-					if vfTopic(x.grp) != nil || vfTopic(p2pName) != nil {
-						vsched.Fail("harness", "topics did not unload")
-					}
-					for _, c := range x.cl {
-						c.Take()
-					}
-					target, real := x.grp, x.grp
-					if which == "p2p" {
-						target, real = x.users[0].id(), p2pName
-					}
-					status := map[string]string{"suspend": "susp", "activate": "ok"}[dir]
-					n := 0
-					prev := memdb.OnCall
-					accID := ""
-					event := func(what string) {
-						if injected {
-							return
+						// unload both topics
+						for i, c := range x.cl[:3] {
+							for _, tn := range []string{x.grp, x.users[0].id(), x.users[1].id()} {
+								if i == 0 && tn == x.users[0].id() || i == 1 && tn == x.users[1].id() || i == 2 && tn != x.grp {
+									continue
+								}
+								c.Req(`{"leave":{"id":"$ID","topic":"%s"}}`, tn)
+							}
 						}
-						n++
-						if n == k {
-							injected = true
-							where = fmt.Sprintf("at event %d (%s)", k, what)
-							accID = x.cl[3].id()
-							x.cl[3].Post(fmt.Sprintf(`{"acc":{"id":"%s","user":"%s","status":"%s"}}`, accID, x.users[0].id(), status))
-							vsched.Quiesce() // everything the request sets off runs to completion; this goroutine is held
+						vsched.Advance(20 * time.Second)
+						if vfTopic(x.grp) != nil || vfTopic(p2pName) != nil {
+							vsched.Fail("harness", "topics did not unload")
 						}
-					}
-					memdb.OnCall = func(name string) {
-						if prev != nil {
-							prev(name)
+						for _, c := range x.cl {
+							c.Take()
 						}
-						event("before store call " + name)
+						target, real := x.grp, x.grp
+						if which == "p2p" {
+							target, real = x.users[0].id(), p2pName
+						}
+						status := map[string]string{"suspend": "susp", "activate": "ok"}[dir]
+						n := 0
+						prev := memdb.OnCall
+						accID := ""
+						event := func(what string) {
+							if injected {
+								return
+							}
+							n++
+							if n == k {
+								injected = true
+								where = fmt.Sprintf("at event %d (%s)", k, what)
+								accID = x.cl[3].id()
+								x.cl[3].Post(fmt.Sprintf(`{"acc":{"id":"%s","user":"%s","status":"%s"}}`, accID, x.users[0].id(), status))
+								vsched.Quiesce() // everything the request sets off runs to completion; this goroutine is held
+							}
+						}
+						memdb.OnCall = func(name string) {
+							if prev != nil {
+								prev(name)
+							}
+							event("before store call " + name)
+						}
+						memdb.OnReturn = func(name string) { event("after store call " + name) }
+						vatomic.OnOp = func(write bool) { event("atomic operation") }
+						restore := func() { memdb.OnCall, memdb.OnReturn, vatomic.OnOp = prev, nil, nil }
+						vsched.OnKill(restore)
+						subCode, _ = x.cl[1].Req(`{"sub":{"id":"$ID","topic":"%s"}}`, target)
+						restore()
+						if k == 0 {
+							events = n
+						}
+						if !injected {
+							// position after the last event: the plain sequential order
+							accCode, _ = x.cl[3].Req(`{"acc":{"id":"$ID","user":"%s","status":"%s"}}`, x.users[0].id(), status)
+						} else if ct := vfCtrl(x.cl[3].Take(), accID); ct != nil {
+							accCode = ct.Code
+						}
+						vsched.Quiesce()
+						if ur := x.w.db.User(x.users[0].uid); ur != nil {
+							suspended = ur.State == types.StateSuspended
+						}
+						s := x.cl[1].session()
+						attached = s != nil && s.getSub(real) != nil
+						before := len(x.w.db.Messages(real))
+						pubCode, _ = x.cl[1].Req(`{"pub":{"id":"$ID","topic":"%s","content":"probe"}}`, target)
+						stored = len(x.w.db.Messages(real)) - before
+					})
+					name := fmt.Sprintf("%s/%s/%s%s", which, dir, where, map[bool]string{false: "", true: " (select prefers the last ready case)"}[sel])
+					r.Eval(1)
+					r.Distinct(fmt.Sprintf("%s/%s/%d/%v", which, dir, k, sel))
+					r.States++
+					r.Transitions += int64(res.Steps)
+					r.Traces++
+					det := map[string]any{"case": name, "sub": subCode, "acc": accCode, "pub": pubCode, "owner_suspended": suspended, "attached": attached, "stored": stored, "injected": injected}
+					for _, v := range vfStatusViolations(res) {
+						r.Violation("C03:suspend-at-load:"+v.Key, name+": "+v.What, det)
 					}
-					memdb.OnReturn = func(name string) { event("after store call " + name) }
-					vatomic.OnOp = func(write bool) { event("atomic operation") }
-					restore := func() { memdb.OnCall, memdb.OnReturn, vatomic.OnOp = prev, nil, nil }
-					vsched.OnKill(restore)
-					subCode, _ = x.cl[1].Req(`{"sub":{"id":"$ID","topic":"%s"}}`, target)
-					restore()
-					if k == 0 {
-						events = n
+					r.Outcome(fmt.Sprintf("%s/%s sub=%d acc=%d susp=%v att=%v pub=%d", which, dir, subCode, accCode, suspended, attached, pubCode))
+					switch {
+					case suspended && (pubCode == 202 || stored != 0):
+						r.Violation("C03:publish-to-suspended-topic:during-load:"+which, fmt.Sprintf("%s: the owner's account was suspended (answered %d) while the topic was being loaded; the member's publish afterwards was answered %d, %d message(s) stored", name, accCode, pubCode, stored), det)
+					case !suspended && attached && pubCode != 202:
+						r.Violation("C03:publish-refused-on-active-topic:during-load:"+which, fmt.Sprintf("%s: the owner's account is active (re-activation answered %d), the writer is attached, the publish was answered %d", name, accCode, pubCode), det)
 					}
-					if !injected {
-						// position after the last event: the plain sequential order
-						accCode, _ = x.cl[3].Req(`{"acc":{"id":"$ID","user":"%s","status":"%s"}}`, x.users[0].id(), status)
-					} else if ct := vfCtrl(x.cl[3].Take(), accID); ct != nil {
-						accCode = ct.Code
-					}
-					vsched.Quiesce()
-					if ur := x.w.db.User(x.users[0].uid); ur != nil {
-						suspended = ur.State == types.StateSuspended
-					}
-					s := x.cl[1].session()
-					attached = s != nil && s.getSub(real) != nil
-					before := len(x.w.db.Messages(real))
-					pubCode, _ = x.cl[1].Req(`{"pub":{"id":"$ID","topic":"%s","content":"probe"}}`, target)
-					stored = len(x.w.db.Messages(real)) - before
-				})
-				name := fmt.Sprintf("%s/%s/%s", which, dir, where)
-				r.Eval(1)
-				r.Distinct(fmt.Sprintf("%s/%s/%d", which, dir, k))
-				r.States++
-				r.Transitions += int64(res.Steps)
-				r.Traces++
-				det := map[string]any{"case": name, "sub": subCode, "acc": accCode, "pub": pubCode, "owner_suspended": suspended, "attached": attached, "stored": stored, "injected": injected}
-				for _, v := range vfStatusViolations(res) {
-					r.Violation("C03:suspend-at-load:"+v.Key, name+": "+v.What, det)
-				}
-				r.Outcome(fmt.Sprintf("%s/%s sub=%d acc=%d susp=%v att=%v pub=%d", which, dir, subCode, accCode, suspended, attached, pubCode))
-				switch {
-				case suspended && (pubCode == 202 || stored != 0):
-					r.Violation("C03:publish-to-suspended-topic:during-load:"+which, fmt.Sprintf("%s: the owner's account was suspended (answered %d) while the topic was being loaded; the member's publish afterwards was answered %d, %d message(s) stored", name, accCode, pubCode, stored), det)
-				case !suspended && attached && pubCode != 202:
-					r.Violation("C03:publish-refused-on-active-topic:during-load:"+which, fmt.Sprintf("%s: the owner's account is active (re-activation answered %d), the writer is attached, the publish was answered %d", name, accCode, pubCode), det)
 				}
 			}
 		}
